@@ -198,8 +198,8 @@ def ev_str(ev):
     op = ev["op"]
     if op in ("read", "probe", "assign", "mutate"):
         return "%s(%s.%s.%s)" % (op, ev["T"], ev["a"], ev["p"])
-    if op == "init":
-        return "init(%s,%s)" % (ev["g"], ev["T"])
+    if op in ("init", "reload"):
+        return "%s(%s,%s)" % (op, ev["g"], ev["T"])
     if op == "create":
         return "create(%s)" % ev["T"]
     if op == "import":
